@@ -4,6 +4,7 @@ as id:Cxx,Cyy) and record the outcome in seeded/<id>/meta.json["detected_by"].""
 import json, os, subprocess, sys, time, glob
 HERE = os.path.dirname(os.path.dirname(os.path.abspath(__file__)))
 only = [a for a in sys.argv[1:] if not a.startswith("--")]
+TIER = "thorough" if "--thorough" in sys.argv else "quick"
 extra = {}
 for d in sorted(glob.glob(os.path.join(HERE, "seeded", "*"))):
     sid = os.path.basename(d)
@@ -22,7 +23,7 @@ for d in sorted(glob.glob(os.path.join(HERE, "seeded", "*"))):
     try:
         for p in props:
             t = time.time()
-            r = subprocess.run(["./check", p, "--tier", "quick"], cwd=HERE, capture_output=True, text=True)
+            r = subprocess.run(["./check", p, "--tier", TIER], cwd=HERE, capture_output=True, text=True)
             kinds = []
             for l in r.stdout.splitlines():
                 if l.startswith("VIOLATION") and "replay=" in l and len(kinds) < 40:
@@ -31,8 +32,8 @@ for d in sorted(glob.glob(os.path.join(HERE, "seeded", "*"))):
                     except Exception:
                         pass
             ks = sorted(set(k for k in kinds if k))
-            meta.setdefault("detected_by", {})[p] = {"exit": r.returncode, "violation_kinds": ks[:6],
-                                                      "tier": "quick", "wall_s": round(time.time() - t)}
+            meta.setdefault("detected_by", {})[p if TIER == "quick" else p + "@thorough"] = {
+                "exit": r.returncode, "violation_kinds": ks[:6], "tier": TIER, "wall_s": round(time.time() - t)}
             print(sid, p, "exit", r.returncode, ks[:2], flush=True)
     finally:
         subprocess.run(["git", "-C", "/repo", "checkout", "--", "."], check=True)
